@@ -51,7 +51,7 @@ def bc_ob(cond, d, time, n_pts, m, sel, fshape, form, via="apply", tag_extra="")
             if form == "dict":
                 fun = {fa: (user_f(fa) if conds[fa] is not None else None) for fa in FACETS[d]}
                 cnd = dict(conds)
-                dim = {fa: sel for fa in FACETS[d]}
+                dim = {fa: (sel.start if via == "evaluate_int" else sel) for fa in FACETS[d]}
             else:
                 fun, cnd, dim = user_f(FACETS[d][0]), cond, sel
             if via == "apply":
@@ -130,6 +130,9 @@ def obligations(tier):
             obs.append(bc_ob({fa: "dirichlet" for fa in fac}, d, time, rows, 2, s12, (1,), "dict"))
             # wiring through the loss classes (slice given as int is normalised to a slice)
             obs.append(bc_ob("dirichlet", d, time, rows, 2, s12, (1,), "global", via="evaluate_int"))
+            obs.append(bc_ob("dirichlet", d, time, rows, 2, s01, (1,), "global", via="evaluate_int"))      # component given as the int 0
+            obs.append(bc_ob({fa: "dirichlet" for fa in fac}, d, time, rows, 2, s01, (1,), "dict", via="evaluate_int"))
+            obs.append(bc_ob("neumann", d, time, rows, 2, s01, (1,), "global", via="evaluate_int"))
             obs.append(bc_ob("neumann", d, time, rows, 1, s01, (1,), "global", via="evaluate"))
             obs.append(bc_ob(mixed, d, time, rows, 1, s01, (1,), "dict", via="evaluate"))
     return obs
